@@ -15,11 +15,13 @@ func init() { props["C19"] = runC19 }
 // One sweep case = one real manager observed around real cleaner ticks (every 30 s from creation).
 // Logical clock of the case: creation = 100, first tick = 130, second tick = 160. Lookups made in the
 // set-up phase carry logical time 100; "old" entries are back-dated by 40 s (logical 60); "fresh"
-// entries are looked up again just before a tick (logical 129 / 159).
+// entries are looked up again just before a tick (logical 129 / 159). "relooked" entries are back-dated by 10 s,
+// looked up again (which must refresh the stamp to "now" however young the recorded stamp is) and then moved 5 s
+// forward: they are 25 s idle at the first tick and must stay (a stamp that was not refreshed would be 35 s old).
 
 type sweepEntry struct {
 	rt, name string
-	class    string // old | fresh | never | plain
+	class    string // old | fresh | never | plain | relooked
 }
 
 type sweepCase struct {
@@ -68,7 +70,7 @@ func runC19(c *ctx) {
 		if !nds {
 			types = append(types, "lds")
 		}
-		classes := []string{"old", "fresh", "never", "plain"}
+		classes := []string{"old", "fresh", "never", "plain", "relooked"}
 		for _, rt := range types {
 			for _, n := range histUniverse[rt] {
 				if n == xdsresource.ReservedLdsResourceName || n == "missing.host" {
@@ -112,6 +114,15 @@ func runC19(c *ctx) {
 			if e.class == "old" {
 				ok := w.m.VerifBackdate(rtOf(e.rt), e.name, 40*time.Second)
 				sc.h.steps = append(sc.h.steps, obj{"o": "backdate", "rt": e.rt, "n": e.name, "now": 60, "applied": ok})
+			}
+		}
+		for _, e := range sc.entries {
+			if e.class == "relooked" {
+				ok := w.m.VerifBackdate(rtOf(e.rt), e.name, 10*time.Second)
+				sc.h.steps = append(sc.h.steps, obj{"o": "backdate", "rt": e.rt, "n": e.name, "now": 90, "applied": ok})
+				sc.getStep(e.rt, e.name, 100)
+				ok = w.m.VerifBackdate(rtOf(e.rt), e.name, -5*time.Second)
+				sc.h.steps = append(sc.h.steps, obj{"o": "backdate", "rt": e.rt, "n": e.name, "now": 105, "applied": ok})
 			}
 		}
 		c.count("worlds", 1)
